@@ -211,6 +211,38 @@ fn gen_interval(t: &mut Tape) -> Iv {
     }
 }
 
+fn scale_function(f: &v1::Function, s: f64) -> v1::Function {
+    use v1::function::Function as FE;
+    let lin = |l: &v1::Linear| {
+        let mut l = l.clone();
+        for t in l.terms.iter_mut() {
+            t.coefficient *= s;
+        }
+        l.constant *= s;
+        l
+    };
+    let mut f = f.clone();
+    f.function = match f.function.take() {
+        Some(FE::Constant(c)) => Some(FE::Constant(c * s)),
+        Some(FE::Linear(l)) => Some(FE::Linear(lin(&l))),
+        Some(FE::Quadratic(mut qd)) => {
+            for v in qd.values.iter_mut() {
+                *v *= s;
+            }
+            qd.linear = qd.linear.as_ref().map(lin);
+            Some(FE::Quadratic(qd))
+        }
+        Some(FE::Polynomial(mut p)) => {
+            for t in p.terms.iter_mut() {
+                t.coefficient *= s;
+            }
+            Some(FE::Polynomial(p))
+        }
+        other => other,
+    };
+    f
+}
+
 fn gcd(a: i64, b: i64) -> i64 {
     if b == 0 {
         a.abs()
@@ -224,11 +256,11 @@ impl Property for C16 {
         "C16"
     }
     fn rule(&self) -> &'static str {
-        "sweep = every ordered pair of intervals over the endpoint classes {-inf, -1e6, -7.25, -1, -0.5, -1e-9, -0, 0, 1e-9, 0.5, 1, 3, 1234.5, 1e6, +inf} x {+, *, ^0..8, scaling, shift} x placed points (ends, 0, interior, far points); random = intervals with random reals | function (degree<=4, any representation, <=4 variables) x box (finite, half-infinite, unbounded, degenerate, sign-crossing, variables missing from the box) x points on corners/faces/interior | as_integer_bound | content_factor of rational-coefficient functions (denominators<=60); \
-         oracle = exact rational pointwise values; non-trivial = an operand with an infinite end or a sign-crossing interval, or exponent>=4; distinct = sha256(case)"
+        "sweep = every ordered pair of intervals over the endpoint classes {-inf, -1e6, -7.25, -1, -0.5, -1e-9, -0, 0, 1e-9, 0.5, 1, 3, 1234.5, 1e6, +inf} x {+, *, ^0..8, scaling, shift} x placed points (ends, 0, interior, far points); random = intervals with random reals | function (degree<=4, any representation, <=4 variables) x box (finite, half-infinite, unbounded, degenerate, sign-crossing, variables missing from the box) x points on corners/faces/interior | as_integer_bound (also finite endpoints up to 1.5e300) | content_factor of rational-coefficient functions (denominators<=60); \
+         oracle = exact rational pointwise values, and for functions that are affine after merging the exact range over the box (attained at corners; infinite on unbounded sides); non-trivial = an operand with an infinite end or a sign-crossing interval, or exponent>=4; distinct = sha256(case)"
     }
     fn required_labels(&self) -> Vec<String> {
-        ["0*inf", "odd-power-crossing", "even-power-negative", "unnormalised-function", "missing-bound", "mode=ops", "mode=evaluate-bound", "mode=integer-bound", "mode=content-factor", "exponent>=4", "content-zero-function", "infinite-box-side"].iter().map(|s| s.to_string()).collect()
+        ["0*inf", "odd-power-crossing", "even-power-negative", "unnormalised-function", "missing-bound", "mode=ops", "mode=evaluate-bound", "mode=integer-bound", "mode=content-factor", "exponent>=4", "content-zero-function", "infinite-box-side", "sub-epsilon-coefficients", "affine-range-oracle", "affine-range-unbounded", "integer-bound-huge-endpoint"].iter().map(|s| s.to_string()).collect()
     }
     fn cases(&self, tier: Tier) -> usize {
         match tier {
@@ -287,7 +319,14 @@ impl Property for C16 {
                 let nv = 1 + t.choice(4);
                 let ids: Vec<u64> = (0..nv as u64).map(|i| i * 3 + 1).collect();
                 let cfg = FuncCfg { regime, allow_unset: true, max_terms: 6, ..FuncCfg::default() };
-                let f = gen_function(t, &ids, &cfg, ctx);
+                let tiny = regime == Regime::General && t.p(40);
+                let mut f = gen_function(t, &ids, &cfg, ctx);
+                if tiny {
+                    // the same function scaled down so that every coefficient is far below machine epsilon (as left
+                    // behind by `f * 1e-17`): over a wide or unbounded box its values are still of ordinary size
+                    f = scale_function(&f, *t.pick(&[1e-17, 8.673617379884035e-19]));
+                    ctx.label("sub-epsilon-coefficients");
+                }
                 let unnorm = ["repeated-term", "lower-triangular", "explicit-zero", "symmetric-split", "unsorted-monomial", "multi-const", "dup-quad-position"].iter().any(|l| ctx.labels.iter().any(|x| x == l));
                 if unnorm {
                     ctx.label("unnormalised-function");
@@ -326,8 +365,57 @@ impl Property for C16 {
                 if !valid(&b) {
                     return fail("C16/evaluate-bound/invalid-interval", format!("evaluate_bound of {f:?} over {ivs:?} = {b:?}"));
                 }
-                // points: corners / faces / interior chosen by the tape (bounded count)
                 let p = Poly::from_function(&f);
+                // a function that is affine after merging attains its supremum and infimum over the box at corners
+                // that can be named exactly; an enclosure of all values must reach both (infinite when a variable
+                // with a non-zero coefficient is unbounded on the relevant side)
+                if p.degree() <= 1 {
+                    let mut sup = Q::zero();
+                    let mut inf = Q::zero();
+                    let mut mag = Q::zero();
+                    let (mut sup_inf, mut inf_inf) = (false, false);
+                    for (m, c) in &p.terms {
+                        if m.is_empty() {
+                            sup += c.clone();
+                            inf += c.clone();
+                            mag += c.abs();
+                            continue;
+                        }
+                        let (lo, hi) = ivs[&m[0]];
+                        let (up_end, down_end) = if *c > Q::zero() { (hi, lo) } else { (lo, hi) };
+                        if up_end.is_infinite() {
+                            sup_inf = true;
+                        } else {
+                            sup += c.clone() * q(up_end);
+                            mag += (c.clone() * q(up_end)).abs();
+                        }
+                        if down_end.is_infinite() {
+                            inf_inf = true;
+                        } else {
+                            inf += c.clone() * q(down_end);
+                            mag += (c.clone() * q(down_end)).abs();
+                        }
+                    }
+                    ctx.label("affine-range-oracle");
+                    if sup_inf || inf_inf {
+                        ctx.label("affine-range-unbounded");
+                    }
+                    // relative to the magnitudes involved, plus an absolute floor for products that underflow
+                    let slack = q(1e-9) * mag + q(1e-290);
+                    let hi_ok = if sup_inf { b.upper() == f64::INFINITY } else { b.upper() == f64::INFINITY || q(b.upper()) + slack.clone() >= sup };
+                    let lo_ok = if inf_inf { b.lower() == f64::NEG_INFINITY } else { b.lower() == f64::NEG_INFINITY || q(b.lower()) - slack.clone() <= inf };
+                    if !hi_ok || !lo_ok {
+                        return fail(
+                            "C16/evaluate-bound/affine-range-not-enclosed",
+                            format!(
+                                "f = {f:?} over box {ivs:?}: computed bound {b:?} does not reach the exact range [{}, {}] of the affine function",
+                                if inf_inf { "-inf".to_string() } else { format!("{:e}", q_to_f64(&inf)) },
+                                if sup_inf { "+inf".to_string() } else { format!("{:e}", q_to_f64(&sup)) }
+                            ),
+                        );
+                    }
+                }
+                // points: corners / faces / interior chosen by the tape (bounded count)
                 let raw = raw_terms(&f);
                 let npts = 12;
                 for _ in 0..npts {
@@ -380,7 +468,19 @@ impl Property for C16 {
             }
             2 => {
                 ctx.label("mode=integer-bound");
-                let iv = gen_interval(t);
+                let big = t.p(48);
+                let mut iv = gen_interval(t);
+                if big {
+                    // finite endpoints of large magnitude (as produced by products and powers of ordinary boxes): beyond
+                    // 2^53 every double is an integer, beyond 2^63 it no longer fits a machine integer
+                    let m = *t.pick(&[9.007199254740992e15, 9.3e18, 1e19, 1e20, 1.5e300]);
+                    match t.choice(3) {
+                        0 => iv.1 = m,
+                        1 => iv.0 = -m,
+                        _ => iv = (-m, m),
+                    }
+                    ctx.label("integer-bound-huge-endpoint");
+                }
                 // must contain an integer
                 let has_int = if iv.0.is_infinite() || iv.1.is_infinite() { true } else { iv.0.ceil() <= iv.1.floor() };
                 if !has_int {
@@ -413,7 +513,7 @@ impl Property for C16 {
                         ks.push(iv.1.floor() - d as f64);
                     }
                 }
-                ks.extend([0.0, 1.0, -1.0, 1e9, -1e9]);
+                ks.extend([0.0, 1.0, -1.0, 1e9, -1e9, 1e19, -1e19, 9.3e18, -9.3e18]);
                 for k in ks {
                     if k >= iv.0 && k <= iv.1 && !(r.lower() <= k && k <= r.upper()) {
                         return fail("C16/integer-bound/integer-lost", format!("integer {k} lies in {iv:?} but not in as_integer_bound = {r:?}"));
